@@ -196,6 +196,10 @@ class Monitor:
             p.post_tick(self, market, mm, t)
         if "C08" in self.on or "C02" in self.on or "C04" in self.on:
             self.check_quotes(market, mm, "tick")
+        if "C08" in self.on and 1 <= t <= 120 and not mm.diverged:
+            self.check_vwap(market, mm)
+            if t >= 1:
+                self.check_counters(market, mm, t - 1)
 
     # ------------------------------------------------------------------ expiry record (mid clock advance: no getters!)
     def on_expiration_log(self, log: ExpirationLog) -> None:
